@@ -1,6 +1,7 @@
 """C02 — dataset operations keep record, target, weight and names of a sample together (selector alignment)."""
 import re
 
+from . import layout
 from .core import RuleResult
 from .facts import fn_key, fn_loc, fn_file, walk, strip, peel_refs, pat_bindings, Render
 from .sym import Tracer, Term, Tup, Poly, k, as_term, as_poly, walk_terms
@@ -565,5 +566,20 @@ def rule_domain(ctx):
     return res.finish(10)
 
 
+def rule_memorder(ctx):
+    """every other raw-buffer access in the dataset code (label counting, target access, iterators)"""
+    res = RuleResult("R-C02-memorder", "raw memory-order buffers (as_slice_memory_order, into_raw_vec, as_ptr) of dataset containers and label arrays are used by position only behind an is_standard_layout() test")
+    F = ctx.facts()
+    fns = [f for f in F.all_fns() if f["d"]["krate"] == "linfa" and (fn_file(f).startswith("src/dataset/") or fn_file(f).startswith("src/composing/"))]
+    if not fns:
+        res.missing_anchor("dataset functions of crate linfa")
+    n = layout.apply(res, fns, "crate linfa, src/dataset and src/composing")
+    if n == 0:
+        res.undecided("matcher-control", "the raw-buffer matcher recognises nothing in crate linfa, where into_raw_vec is known to be used (the rule would pass vacuously)", "src/dataset/impl_dataset.rs")
+    else:
+        res.ok()
+    return res.finish(2)
+
+
 def rules(tier):
-    return [rule_align, rule_filter, rule_columns, rule_layout, rule_domain]
+    return [rule_align, rule_filter, rule_columns, rule_layout, rule_domain, rule_memorder]
